@@ -6,8 +6,10 @@ package main
 import (
 	"fmt"
 	"math"
+	"os"
 	"sync"
 	"sync/atomic"
+	"time"
 
 	"github.com/deadsy/sdfx/render"
 	"github.com/deadsy/sdfx/sdf"
@@ -49,6 +51,16 @@ func checkC07(c *Ctx) {
 	c07HighRes(c)
 	c07HighRes2(c)
 	c07Reuse(c)
+	// word size: the same high-resolution cases in a build of this harness for a platform whose int has 32 bits (lattice
+	// indices packed into machine words, sizes and counts held in int)
+	if bin := os.Getenv("VCHECK_386_BIN"); bin != "" {
+		if _, err := os.Stat(bin); err == nil {
+			c.runShardedBin("c07-wordsize", 1, 1, false, 30*time.Minute, bin)
+			c.Count("word_size_variant_runs_GOARCH_386", 1)
+		}
+	} else {
+		c.Count("word_size_variant_not_built", 1)
+	}
 	c.mu.Lock()
 	ds := []string{}
 	for k := range depths {
@@ -57,6 +69,14 @@ func checkC07(c *Ctx) {
 	c.mu.Unlock()
 	c.Obs("tree_depths_reached", sortedStrings(ds))
 	c.Floor(c.Pick(100, 2000))
+}
+
+func init() {
+	shardFns["c07-wordsize"] = func(c *Ctx, shard, nshards int) {
+		c.Quick = true // the quick case lists (rods up to 1023 cells, bars up to 40000) are enough to cross the 32-bit limits
+		c07HighRes(c)
+		c07HighRes2(c)
+	}
 }
 
 func sortedStrings(s []string) []string {
